@@ -98,7 +98,7 @@ func c17Check(r *Run, comp string, d *Delivery, it *c17Item, dest *c17Dest, want
 func c17Faults(t *simrt.Tape, p *ScriptedPublisher) {
 	n := t.Skewed(4)
 	for i := 0; i < n; i++ {
-		p.FailAt[1+t.Int(6)] = simrt.Pick(t, PubErr, PubErr, PubPanic)
+		p.FailAt[1+t.Int(6)] = simrt.Pick(t, PubErr, PubErr, PubPanic, PubErrCanceled)
 	}
 }
 
